@@ -151,8 +151,10 @@ std::string history_str(const std::vector<Action>& h) {
   for (const auto& a : h) s += (s.empty() ? "" : ",") + action_str(a);
   return s.empty() ? "-" : s;
 }
-std::vector<Action> parse_history(const std::string& s) {
+std::vector<Action> parse_history(std::string s) {
   std::vector<Action> h;
+  const auto fpos = s.find(" FAULT");
+  if (fpos != std::string::npos) s = s.substr(0, fpos);
   if (s == "-" || s.empty()) return h;
   for (const auto& t : split(s, ',')) {
     Action a{};
@@ -741,6 +743,11 @@ struct Engine {
       nalloc = vacct::allocs - before;
     }
     for (std::uint64_t k = 1; k <= nalloc; ++k) {
+      {
+        std::vector<Action> hh = h;
+        hh.push_back(a);
+        progress_set(history_str(hh) + " FAULT " + std::to_string(k));
+      }
       auto d = build(h);
       const Snapshot s0 = snapshot(*d, ref, h);
       const auto fwd0 = run_scan([&](auto& fn) { d->scan(fn, true); }, -1);
